@@ -1,12 +1,17 @@
 /-
 C13 — Writers surface every sink failure and never report false success.
 
-Proved on the model of `xflate.Writer` (which contains the meta encoder's
-block-by-block writes); `bzip2.Writer` and `meta.Writer` on their own are
-decided by the oracle sweep (family `wf`).
+Proved on the models of `xflate.Writer` (which contains the meta encoder's
+block-by-block writes), of `bzip2.Writer` (Bzip2/WriterApi.lean) and of
+`meta.Writer` (Meta/WriterApi.lean), each over the adversarial `Sink`: fails at
+any byte budget, hard or short write, once or forever, any error tag.  All
+bzip2/meta statements hold for every sink adversary and every sequence of
+Write/Close/Reset (induction over the op list).
 -/
 import Compress.Proofs.XFlateWriterLatch
 import Compress.Proofs.BitIO
+import Compress.Proofs.BzWApiNoFalse
+import Compress.Proofs.MetaWApi
 
 namespace Compress.Props.C13
 open Compress Compress.XFlate Compress.Proofs.XFlateWriterLatch
@@ -59,5 +64,120 @@ theorem C13_bitwriter_exact (big : Bool) (fs : List (Nat × Nat))
     let r := Prefix.writeScript { bigEndian := big } fs
     r.2 = none ∧ r.1.sink.got = Prefix.packBits big (Prefix.fieldBits fs) ∧ r.1.buf = [] ∧ r.1.numBits = 0 :=
   Compress.Proofs.BitIO.writer_refines big fs hf
+
+/-! ### bzip2.Writer (API-level model `Bzip2.BzW`) -/
+
+section bzip2
+open Compress.Bzip2 Compress.Proofs.BzWApi
+
+/-- the latch invariant (`done` goes with the closed marker; once the sink has refused bytes an
+    error is latched and the writer is not `done`) holds after NewWriter/Reset onto a sink that has not
+    failed before and is kept by every call. -/
+theorem C13_bzip2_sink_failure_latched (s : BzW) (h : Latched s) (ops : List BzOp) (hf : ∀ op ∈ ops, op.fresh) :
+    Latched (BzW.run s ops).1 :=
+  latched_run ops s h hf
+
+theorem C13_bzip2_latched_after_reset (s : BzW) (sk : Sink) (h : sk.failed = false) : Latched (s.reset sk) :=
+  latched_reset s sk h
+
+/-- once the sink has refused bytes: every later Write and Close returns an error - Close never
+    returns nil - and nothing changes any more, for every continuation without Reset. -/
+theorem C13_bzip2_failed_forever (s : BzW) (h : Latched s) (hf : s.bw.sink.failed = true) (ops : List BzOp)
+    (hn : ∀ op ∈ ops, op.noReset) : (BzW.run s ops).1 = s ∧ ∀ r ∈ (BzW.run s ops).2, r.isErr :=
+  failed_forever s h hf ops hn
+
+/-- a latched error is returned by every later Write and Close, unchanged, and nothing else changes. -/
+theorem C13_bzip2_keeps_failing (s : BzW) (e : Err) (he : s.err = some e) (hd : s.done = false) (d : List UInt8) :
+    s.step (.write d) = (s, .write 0 (some e)) ∧ s.step .close = (s, .close (some e)) :=
+  keeps_failing s e he hd d
+
+/-- the error a call returns is latched. -/
+theorem C13_bzip2_errors_latched (s : BzW) (h : Latched s) :
+    (∀ d e, (s.write d).2.2 = some e → (s.write d).1.err = some e) ∧
+    (∀ e, (s.close).2 = some e → (s.close).1.err = some e ∧ (s.close).1.done = false) ∧
+    ((s.close).2 = none → (s.close).1.done = true ∧ (s.close).1.err = some .closed) :=
+  ⟨fun d e => write_err_latched s d e, (close_latches s h).2, (close_latches s h).1⟩
+
+/-- **no false success.** A writer made by NewWriter, any sequence of Write/Close/Reset, any sinks:
+    whenever it is `done` (i.e. Close has returned nil since the last Reset) the sink holds, after what
+    it held when it was attached, exactly `encodeStream level (all data accepted by Write)`. -/
+theorem C13_bzip2_no_false_success (lvl : Int) (sk : Sink) (s0 : BzW) (h0 : newBzW lvl sk = some s0) (ops : List BzOp) :
+    let s := (BzW.run s0 ops).1
+    s.done = true → ∃ out, encodeStream s.level s.acc = some out ∧ s.bw.sink.got = s.base ++ out :=
+  no_false_success lvl sk s0 h0 ops
+
+/-- ... hence (C04_lossless) the format specification decodes what the sink received to exactly the accepted data. -/
+theorem C13_bzip2_done_decodes (lvl : Int) (sk : Sink) (s0 : BzW) (h0 : newBzW lvl sk = some s0) (ops : List BzOp) :
+    let s := (BzW.run s0 ops).1
+    s.done = true → ∃ out, s.bw.sink.got = s.base ++ out ∧
+      Bzip2.decode out = { out := s.acc.toArray, verdict := .ok } :=
+  done_decodes lvl sk s0 h0 ops
+
+/-- the same on the Close call itself: nil means the sink now holds the complete stream. -/
+theorem C13_bzip2_close_nil_complete (lvl : Int) (sk : Sink) (s0 : BzW) (h0 : newBzW lvl sk = some s0) (ops : List BzOp) :
+    let s := (BzW.run s0 ops).1
+    (s.close).2 = none → ∃ out, encodeStream s.level s.acc = some out ∧ (s.close).1.bw.sink.got = s.base ++ out :=
+  fun hc => close_nil_complete _ (exact_run ops s0 (exact_new lvl sk s0 h0).1) hc
+
+/-- the hypotheses are satisfiable: NewWriter(level 9) over a sink that fails after 5 bytes. -/
+example : ∃ s0, newBzW 9 { budget := some 5, mode := .short, forever := false } = some s0 ∧ Latched s0 :=
+  ⟨_, rfl, latched_reset _ _ rfl⟩
+
+end bzip2
+
+/-! ### meta.Writer (API-level model `Meta.MW`) -/
+
+section metaw
+open Compress.Meta Compress.Proofs.MetaWApi
+
+theorem C13_meta_sink_failure_latched (s : MW) (h : Latched s) (ops : List MOp) (hf : ∀ op ∈ ops, op.fresh) :
+    Latched (MW.run s ops).1 :=
+  latched_run ops s h hf
+
+theorem C13_meta_latched_after_reset (sk : Sink) (f : FinalMode) (h : sk.failed = false) :
+    Latched ((({} : MW).reset sk).setFinal f) :=
+  latched_fresh sk f h
+
+/-- once the sink has refused bytes every later Write and Close returns an error (Close never nil), until Reset. -/
+theorem C13_meta_failed_forever (s : MW) (h : Latched s) (hf : s.sink.failed = true) (ops : List MOp)
+    (hn : ∀ op ∈ ops, op.noReset) : (MW.run s ops).1 = s ∧ ∀ r ∈ (MW.run s ops).2, r.isErr :=
+  failed_forever s h hf ops hn
+
+theorem C13_meta_errors_latched (s : MW) (hs : s.err = none) (d : List UInt8) (e : Err) :
+    (s.write d).2.2 = some e → (s.write d).1.err = some e :=
+  write_err_latched s hs d e
+
+/-- **no false success**: whenever the writer is `done` the sink holds exactly the blocks of
+    `Meta.encode (all data accepted by Write) FinalMode`. -/
+theorem C13_meta_no_false_success (sk : Sink) (f : FinalMode) (ops : List MOp) :
+    let s := (MW.run ((({} : MW).reset sk).setFinal f) ops).1
+    s.done = true → ∃ blocks, Meta.encode s.acc s.final = some blocks ∧ s.sink.got = s.base ++ blocks.flatten :=
+  no_false_success sk f ops
+
+theorem C13_meta_close_nil_complete (sk : Sink) (f : FinalMode) (ops : List MOp) :
+    let s := (MW.run ((({} : MW).reset sk).setFinal f) ops).1
+    (s.close).2 = none → ∃ blocks, Meta.encode s.acc s.final = some blocks ∧ (s.close).1.sink.got = s.base ++ blocks.flatten :=
+  close_nil_complete sk f ops
+
+/-- bytes received by a failing sink (any budget, hard/short, once/forever) are a prefix of the bytes a
+    never-failing sink receives for the same calls; identical as long as the sink has not failed. -/
+theorem C13_meta_sink_prefix (s s' : MW) (hf : s.sink.failed = false) (hb : s'.sink.budget = none)
+    (hs : s' = { s with sink := { s.sink with budget := s'.sink.budget, mode := s'.sink.mode,
+                                              forever := s'.sink.forever, tag := s'.sink.tag } })
+    (ops : List MOp) (hn : ∀ op ∈ ops, op.noReset) :
+    (MW.run s ops).1.sink.got <+: (MW.run s' ops).1.sink.got ∧
+    ((MW.run s ops).1.sink.failed = false → (MW.run s ops).1.sink.got = (MW.run s' ops).1.sink.got) :=
+  sink_prefix' s s' hf hb hs ops hn
+
+/-- counters: after every call InputOffset = bytes accepted, OutputOffset = bytes the sink accepted. -/
+theorem C13_meta_counters (sk : Sink) (f : FinalMode) (ops : List MOp) :
+    Counted (MW.run ((({} : MW).reset sk).setFinal f) ops).1 :=
+  counted_run ops _ (counted_fresh sk f)
+
+theorem C13_meta_accepted (s : MW) (d : List UInt8) (hs : s.err = none) :
+    (s.write d).1.acc = s.acc ++ d.take (s.write d).2.1 ∧ (s.write d).2.1 ≤ d.length :=
+  (write_acc s d).1 hs
+
+end metaw
 
 end Compress.Props.C13
